@@ -416,6 +416,8 @@ fn parse_tree<'a>(it: &mut impl Iterator<Item = &'a str>) -> Tree {
 struct Scripted {
     scripts: Vec<(u32, u8)>,
     log: Arc<Mutex<Vec<usize>>>,
+    /// symbol text served for a key whose outcome is Ok (P cases: with STACK CFI)
+    text: Option<Vec<u8>>,
 }
 fn key_of_code_file(cf: &str) -> Option<usize> {
     cf.strip_prefix("/m/k")?.strip_suffix(".so")?.parse().ok()
@@ -429,7 +431,9 @@ impl SymbolSupplier for Scripted {
         Delay { mode: Mode::Count, left: susp, tokens: Arc::new(Mutex::new(Tokens::default())), id: None }.await;
         match outc {
             0 => Ok(LocateSymbolsResult {
-                symbols: breakpad_symbols::SymbolFile::from_bytes(b"MODULE Linux x86_64 000000000000000000000000000000000 mock\nFUNC 1000 10 0 f\n")?,
+                symbols: breakpad_symbols::SymbolFile::from_bytes(
+                    self.text.as_deref().unwrap_or(b"MODULE Linux x86_64 000000000000000000000000000000000 mock\nFUNC 1000 10 0 f\n"),
+                )?,
                 extra_debug_info: None,
             }),
             1 => Err(SymbolError::NotFound),
@@ -471,7 +475,7 @@ fn run_adaptive(rest: &str) -> String {
         .map(|k| breakpad_symbols::SimpleModule { code_file: Some(format!("/m/k{}.so", k)), ..Default::default() })
         .collect();
     let calls = Arc::new(Mutex::new(Vec::new()));
-    let sym = breakpad_symbols::Symbolizer::new(Scripted { scripts, log: calls.clone() });
+    let sym = breakpad_symbols::Symbolizer::new(Scripted { scripts, log: calls.clone(), text: None });
     let logs: Vec<Mutex<Vec<(usize, bool)>>> = (0..nt).map(|_| Mutex::new(Vec::new())).collect();
     let mut results: Vec<Option<u64>> = vec![None; nt];
     {
@@ -523,7 +527,61 @@ fn run_adaptive(rest: &str) -> String {
     )
 }
 
+/// P <susp,outc;...> <nt> <trees> | <dump spec>: the real processor on a dump whose threads are decision trees (see props/c13.py
+/// process_tree_case), one Symbolizer over the scripted supplier, the process future polled to completion.
+/// answer: per-thread module keys of the frames ; supplier call log ; stats per key ; requested/processed
+fn run_process_trees(rest: &str) -> String {
+    let (head, spec_s) = rest.split_once(" | ").expect("P head | spec");
+    let scripts: Vec<(u32, u8)> = head
+        .split_ascii_whitespace()
+        .next()
+        .expect("scripts")
+        .split(';')
+        .map(|e| {
+            let (a, b) = e.split_once(',').expect("susp,outc");
+            (num(a) as u32, num(b) as u8)
+        })
+        .collect();
+    let nk = scripts.len();
+    let spec = parse_spec(spec_s.split_ascii_whitespace());
+    let dump = Minidump::read(build_dump(&spec)).expect("read");
+    let calls = Arc::new(Mutex::new(Vec::new()));
+    let text = b"MODULE Linux x86_64 000000000000000000000000000000000 tree\nFUNC 0 10000 0 f\nSTACK CFI INIT 0 10000 .cfa: $rsp 16 + .ra: .cfa 8 - ^ $rbp: .cfa 16 - ^\n".to_vec();
+    let provider = Symbolizer::new(Scripted { scripts, log: calls.clone(), text: Some(text) });
+    let state = exec_a(minidump_processor::process_minidump_with_options(&dump, &provider, ProcessorOptions::stable_basic())).expect("process");
+    let join = |v: Vec<String>, sep: &str| if v.is_empty() { "-".to_string() } else { v.join(sep) };
+    let threads: Vec<String> = state
+        .threads
+        .iter()
+        .map(|t| {
+            join(
+                t.frames
+                    .iter()
+                    .map(|f| f.module.as_ref().and_then(|m| key_of_code_file(&m.code_file())).map(|k| k.to_string()).unwrap_or_else(|| "?".into()))
+                    .collect(),
+                ".",
+            )
+        })
+        .collect();
+    let stats = provider.stats();
+    let pend = provider.pending_stats();
+    format!(
+        "P {};{};{};{}/{}",
+        join(threads, "|"),
+        join(calls.lock().unwrap().iter().map(|k| k.to_string()).collect(), "."),
+        join((0..nk).map(|k| match stats.get(&format!("k{}.so", k)) {
+            None => "-".to_string(),
+            Some(s) => format!("{}{}", if s.loaded_symbols { "L" } else { "l" }, if s.corrupt_symbols { "C" } else { "c" }),
+        }).collect(), ","),
+        pend.symbols_requested,
+        pend.symbols_processed
+    )
+}
+
 fn run(line: &str) -> String {
+    if let Some(rest) = line.strip_prefix("P ") {
+        return run_process_trees(rest);
+    }
     if let Some(rest) = line.strip_prefix("A ") {
         return run_adaptive(rest);
     }
